@@ -45,19 +45,38 @@ pub fn topic<const L: usize>() -> String {
     t
 }
 
-/// install ghost frames through the real import path, then clear the effect trace
-pub fn install(sut: &Sut, g: &[Ghost]) {
+/// Put one ghost frame into the model partitions. The three keys come from the REAL key
+/// functions (so a consistent change of layout cannot cause a false alarm); the writes themselves
+/// are model-level. Why not the real `insert_frame` here: its NUL check forks on the symbolic
+/// topic, CBMC then merges an "inserted" with a "rejected" store state, and every later operation
+/// pays for the symbolic slot counters (probe: one symbolic stored/ephemeral choice before two
+/// more operations = OOM at 40 GB; the same choice as the LAST step = 50 s). The real
+/// `insert_frame` is itself the operation under test in o_insert / o_reimport.
+pub fn install_one(f: &Frame) {
+    let tk = match idx_topic_key_from_frame(f) {
+        Ok(k) => k,
+        Err(_) => {
+            nd::assume(false);
+            return;
+        }
+    };
+    let ck = idx_context_key_from_frame(f);
+    let val = match crate::env::json::to_vec(&f) {
+        Ok(v) => v,
+        Err(_) => {
+            nd::assume(false);
+            return;
+        }
+    };
+    env::fjall::pre_put(env::fjall::P_STREAM, f.id.as_bytes(), &val);
+    env::fjall::pre_put(env::fjall::P_TOPIC, &tk, b"");
+    env::fjall::pre_put(env::fjall::P_CTX, &ck, b"");
+}
+pub fn install(_sut: &Sut, g: &[Ghost]) {
     let mut i = 0;
     while i < g.len() {
-        let r = sut.store.insert_frame(&g[i].f);
-        hx_check!(r.is_ok(), "C20 import of a NUL-free frame is accepted");
-        i += 1;
-    }
-    let mut i = 0;
-    while i < g.len() {
-        if !g[i].present {
-            let r = sut.store.remove(&g[i].f.id);
-            hx_check!(r.is_ok(), "remove of a stored frame succeeds");
+        if g[i].present {
+            install_one(&g[i].f);
         }
         i += 1;
     }
@@ -158,9 +177,7 @@ pub fn setup<const L: usize, const N: usize>(with_ttl: bool, extra: usize) -> (S
     }
     let mut i = 0;
     while i < N {
-        if sut.store.insert_frame(&g[i].f).is_err() {
-            nd::assume(false);
-        }
+        install_one(&g[i].f);
         i += 1;
     }
     env::trace::reset();
@@ -178,7 +195,7 @@ pub fn o_head<const L: usize, const Q: usize, const N: usize>() {
     let want = ref_head(&g, &qt, qc);
     hx_check!(got == want, "C05 head(topic, ctx) is the newest frame of exactly that topic in that context");
     hx_cover!(
-        (L == Q && want == Some(g[N - 2].f.id)) || (L != Q && want.is_none() && g[0].f.context_id == qc),
+        (L == Q && want == Some(g[if N >= 2 { N - 2 } else { 0 }].f.id)) || (L != Q && want.is_none() && g[0].f.context_id == qc),
         "equal lengths: head is an older frame (the newest differs in topic or context); different lengths: no head although the context holds a prefix-related topic"
     );
     core::mem::forget(sut);
@@ -191,6 +208,9 @@ pub fn o_iter<const L: usize, const N: usize, const SCOPE: u8>() {
     let (sut, g) = setup::<L, N>(false, 0);
     let scoped = SCOPE == 1;
     let qc = sid(nd::any_u128());
+    // context ids are generator-produced: the all-ones id (48-bit timestamp 2^48-1 ...) cannot occur,
+    // and idx_context_key_range_end saturates there on purpose (source comment) - see k_ctx_range
+    nd::assume(qc.to_u128() != u128::MAX);
     let has_last = nd::any_bool();
     let last = sid(nd::any_u128());
     let ctx = if scoped { Some(qc) } else { None };
@@ -213,7 +233,7 @@ pub fn o_iter<const L: usize, const N: usize, const SCOPE: u8>() {
     hx_check!(got[0] == want[0] && got[1] == want[1] && got[2] == want[2], "C01 reads return the live history in strictly increasing id order, scoped to the context, strictly after last-id");
     hx_cover!(m == N - 1 && has_last, "read with last-id returning all but one frame");
     hx_cover!(
-        (scoped && m == 1 && g[0].f.context_id.to_u128().wrapping_add(1) == qc.to_u128()) || (!scoped && has_last && m == 1 && last == g[N - 2].f.id),
+        (scoped && m == 1 && g[0].f.context_id.to_u128().wrapping_add(1) == qc.to_u128()) || (!scoped && has_last && m == 1 && last == g[if N >= 2 { N - 2 } else { 0 }].f.id),
         "scoped: a frame of the numerically adjacent context below is not returned; all: resuming exactly at a member id"
     );
     core::mem::forget(sut);
@@ -704,6 +724,39 @@ pub fn o_registry_after_import<const L: usize>() {
     core::mem::forget(f);
 }
 
+/// C07/C20, lean variant with a concrete topic (the 10/11-byte symbolic-topic variants above take
+/// > 25 min / 30 GB): import of a frame whose topic is `xs.context` (KIND 0: in the zero context =
+/// a registration; KIND 1: in an arbitrary non-zero context = not one) or the prefix-related
+/// `xs.context.x` in the zero context (KIND 2: not one); then a reopen. Concrete bytes.
+pub fn o_import_reg<const KIND: u8>() {
+    env::reset_all();
+    env::fjall::set_limit(1);
+    let sut = mk_store(2);
+    // concrete id / context: with a solver-chosen id this harness needs > 15 min and 22 GB (the
+    // reopen scans the zero context through the index -> lookup path)
+    let id = 4242u128 << 80;
+    let ctx = if KIND == 1 { 77u128 << 80 } else { 0 };
+    let t = if KIND == 2 { "xs.context.x" } else { "xs.context" };
+    let f = mk_frame(t.to_string(), ctx, id, None);
+    let r = sut.store.insert_frame(&f);
+    if r.is_err() {
+        nd::assume(false);
+    }
+    let is_reg = KIND == 0;
+    if is_reg {
+        nd::tag("import-of-xs.context-registration");
+    }
+    let before = sut.store.contexts.read().unwrap().contains(&sid(id));
+    core::mem::forget(sut);
+    let s2 = reopen();
+    let after = s2.contexts.read().unwrap().contains(&sid(id));
+    hx_check!(after == is_reg, "C07 reopening registers exactly the ids of xs.context frames stored in the zero context");
+    hx_check!(before == after, "C07 the set of usable contexts is the same before and after a reopen, however the frames got there");
+    hx_cover!(true, "reached");
+    core::mem::forget(s2);
+    core::mem::forget(f);
+}
+
 /// C07: removing a registration frame unregisters its context, before and after a reopen.
 pub fn o_remove_unregisters() {
     env::reset_all();
@@ -728,6 +781,207 @@ pub fn o_remove_unregisters() {
     hx_cover!(true, "reached");
     core::mem::forget(r2);
     core::mem::forget(s2);
+}
+
+/// C08/C09 (solver-quantified kernel of the collector): one CheckHeadTTL task - every context,
+/// every topic of Q bytes, every keep - run by the REAL gc worker body over a symbolic N-frame
+/// state. The task is built directly (a real head:K append before it forks the store state and
+/// did not fit in 40 GB); the append -> task wiring is o_append's and o_gc_e2e's business.
+pub fn o_gc_task<const L: usize, const Q: usize, const N: usize>() {
+    let (sut, g) = setup::<L, N>(false, 0);
+    let qc = sid(nd::any_u128());
+    let qt = topic::<Q>();
+    let keep = nd::any_u32();
+    let _ = sut.store.gc_tx.send(GCTask::CheckHeadTTL { context_id: qc, topic: qt.clone(), keep });
+    gc_drain(&sut);
+    let mut newer = 0u32;
+    let mut i = N;
+    let mut evicted = 0;
+    while i > 0 {
+        i -= 1;
+        let f = &g[i].f;
+        let member = f.context_id == qc && topic_eq(&f.topic, &qt);
+        let should_go = member && newer >= keep;
+        if member {
+            newer += 1;
+        }
+        let still = sut.store.get(&f.id);
+        hx_check!(still.is_some() == !should_go, "C08 head:K eviction removes exactly the frames of that topic and context outside the K newest - never a frame of another topic (even a prefix-related one) or context");
+        if should_go {
+            evicted += 1;
+        }
+        core::mem::forget(still);
+    }
+    hx_cover!(
+        (L == Q && evicted == 1 && keep == 1 && newer == 2) || (L != Q && g[0].f.context_id == qc && g[N - 1].f.context_id == qc && keep == 0),
+        "equal lengths: keep 1 of two members evicts the older one; different lengths: prefix-related topics in the task's context are untouched even with keep 0"
+    );
+    core::mem::forget(sut);
+    core::mem::forget(g);
+    core::mem::forget(qt);
+}
+
+/// C08/C09 end to end, concrete bytes: frames "a" x3 and a prefix-related "ab" in context 0, "a"
+/// in another context; a REAL `head:K` append (K per instance) on ("a", 0); the REAL gc worker.
+/// Exactly the members of ("a", 0) outside the K newest are gone.
+pub fn o_gc_e2e<const K: u32>() {
+    env::reset_all();
+    env::fjall::set_limit(6);
+    let sut = mk_store(2);
+    let other = 77u128 << 80;
+    sut.store.contexts.write().unwrap().insert(sid(other));
+    let t = 1000u128 << 80;
+    let fs = [
+        mk_frame("a".to_string(), 0, t + 1, None),
+        mk_frame("ab".to_string(), 0, t + 2, None),
+        mk_frame("a".to_string(), other, t + 3, None),
+        mk_frame("a".to_string(), 0, t + 4, Some(TTL::Forever)),
+        mk_frame("a".to_string(), 0, t + 5, None),
+    ];
+    let mut i = 0;
+    while i < 5 {
+        install_one(&fs[i]);
+        i += 1;
+    }
+    env::trace::reset();
+    env::scru::force_next(t + 6);
+    let r = sut.store.append(mk_frame("a".to_string(), 0, 0, Some(TTL::Head(K))));
+    hx_check!(r.is_ok(), "append succeeds");
+    gc_drain(&sut);
+    // members of ("a", 0), newest first: t+6, t+5, t+4, t+1
+    let members = [t + 6, t + 5, t + 4, t + 1];
+    let mut k = 0;
+    while k < 4 {
+        let st = sut.store.get(&sid(members[k]));
+        hx_check!(st.is_some() == ((k as u32) < K), "C09 after the collector drained, a head:K topic holds its K newest frames and nothing older");
+        core::mem::forget(st);
+        k += 1;
+    }
+    let p = sut.store.get(&sid(t + 2));
+    let o = sut.store.get(&sid(t + 3));
+    hx_check!(p.is_some() && o.is_some(), "C08 garbage collection of one topic never touches a prefix-related topic or another context");
+    let h = sut.store.head("a", ZERO_CONTEXT).map(|f| f.id);
+    hx_check!(h == Some(sid(t + 6)), "C09 the newest frame of the topic is its head after collection");
+    hx_cover!(true, "reached");
+    core::mem::forget(p);
+    core::mem::forget(o);
+    core::mem::forget(r);
+    core::mem::forget(sut);
+    core::mem::forget(fs);
+}
+
+/// C01/C08/C09: read_sync over [time:T frame, plain frame] (ids, contexts, topic bytes, T and the
+/// clock symbolic): the time:T frame is dropped exactly when expired, *before* the limit is
+/// applied, and a Remove is queued for it and only for it.
+pub fn o_read_sync_k<const L: usize>() {
+    env::reset_all();
+    env::fjall::set_limit(2);
+    let sut = mk_store(2);
+    let id0 = nd::any_u128();
+    let id1 = nd::any_u128();
+    nd::assume(id0 < id1);
+    let ms = nd::any_u64();
+    let g = [
+        Ghost { f: mk_frame(topic::<L>(), nd::any_u128(), id0, Some(TTL::Time(Duration::from_millis(ms)))), present: true },
+        Ghost { f: mk_frame(topic::<L>(), nd::any_u128(), id1, None), present: true },
+    ];
+    install(&sut, &g);
+    let now = nd::any_u64();
+    env::stdm::time::set_clock(now);
+    let has_limit = nd::any_bool();
+    let (got, n, more) = {
+        let mut it = sut.store.read_sync(None, if has_limit { Some(1) } else { None }, None);
+        take_ids::<2>(&mut it)
+    };
+    let exp = expired(&g[0].f, now);
+    let want0 = if exp { id1 } else { id0 };
+    let want_n = if exp || has_limit { 1 } else { 2 };
+    hx_check!(!more && n == want_n && got[0] == want0 && (n < 2 || got[1] == id1), "C01 read_sync returns the first `limit` of the non-expired frames (filter, then take); C09 an expired time:N frame is never returned");
+    hx_check!(sut.gc_rx.model_len() == if exp { 1 } else { 0 }, "C08 a Remove is queued only for a frame whose time:N ttl has elapsed");
+    hx_cover!(exp && has_limit, "limit 1 with an expired frame ahead of the one delivered");
+    hx_cover!(!exp && now > 0 && ms > 1000, "a long ttl not yet elapsed");
+    core::mem::forget(sut);
+    core::mem::forget(g);
+}
+
+/// C04/C05: remove(id) for an arbitrary id over a symbolic N-frame state: effect shape and
+/// by-id visibility (stream / head agreement after removal is o_remove_head's business).
+pub fn o_remove_k<const L: usize, const N: usize>() {
+    let (sut, g) = setup::<L, N>(false, 0);
+    let rid = sid(nd::any_u128());
+    let mut hit = false;
+    let mut i = 0;
+    while i < N {
+        if rid == g[i].f.id {
+            hit = true;
+        }
+        i += 1;
+    }
+    let r = sut.store.remove(&rid);
+    hx_check!(r.is_ok(), "remove succeeds");
+    let m = env::trace::mon();
+    if hit {
+        hx_check!(m.batches == 1 && m.commits == 1 && m.batch_removes == 3 && m.last_commit_nops == 3 && m.rem_pids == 0b111 && m.batch_inserts == 0 && m.direct_writes == 0,
+            "C04 a remove is ONE atomic batch of exactly the frame's three tombstones, nothing outside it");
+        hx_check!(c04_synced(&m), "C04 the remove batch is fsynced (SyncAll) before it is acknowledged");
+    } else {
+        hx_check!(m.commits == 0 && m.direct_writes == 0, "C05 removing an unknown id leaves no trace");
+    }
+    let mut i = 0;
+    while i < N {
+        let by_id = sut.store.get(&g[i].f.id);
+        hx_check!(by_id.is_some() == (g[i].f.id != rid), "C05 after remove exactly the named frame is gone by id");
+        core::mem::forget(by_id);
+        i += 1;
+    }
+    hx_cover!(hit, "a stored frame removed");
+    hx_cover!(!hit, "unknown id");
+    core::mem::forget(sut);
+    core::mem::forget(g);
+}
+
+/// C05: after removing the NEWEST of two symbolic frames, every way of finding frames agrees:
+/// it is gone from the all-contexts stream, from its context's stream and as head; head falls
+/// back to the older frame iff that one has the same topic and context.
+pub fn o_remove_head<const L: usize>() {
+    let (sut, g) = setup::<L, 2>(false, 0);
+    let r = sut.store.remove(&g[1].f.id);
+    hx_check!(r.is_ok(), "remove succeeds");
+    let (all, n_all, more) = {
+        let mut it = sut.store.iter_frames(None, None);
+        take_ids::<2>(&mut *it)
+    };
+    hx_check!(n_all == 1 && !more && all[0] == g[0].f.id.to_u128(), "C05 a removed frame is gone from the all-contexts stream, the others stay");
+    let got = sut.store.head(&g[1].f.topic, g[1].f.context_id).map(|f| f.id);
+    let same = g[0].f.context_id == g[1].f.context_id && topic_eq(&g[0].f.topic, &g[1].f.topic);
+    hx_check!(got == if same { Some(g[0].f.id) } else { None }, "C05 head skips the removed frame and falls back to the next newest of that topic");
+    hx_cover!(same, "head falls back to the older frame");
+    hx_cover!(!same && g[0].f.context_id == g[1].f.context_id, "same context, other topic: no head left");
+    core::mem::forget(sut);
+    core::mem::forget(g);
+}
+
+/// C20: importing the identical frame again changes nothing (one stream entry, same lookup).
+pub fn o_reimport_k<const L: usize>() {
+    env::reset_all();
+    env::fjall::set_limit(2);
+    let sut = mk_store(2);
+    let f = mk_frame(topic::<L>(), nd::any_u128(), nd::any_u128(), None);
+    install_one(&f);
+    env::trace::reset();
+    let r2 = sut.store.insert_frame(&f);
+    hx_check!(r2.is_ok(), "C20 re-import is accepted");
+    let (ids, n_all, more_all) = {
+        let mut it = sut.store.iter_frames(None, None);
+        take_ids::<2>(&mut *it)
+    };
+    hx_check!(n_all == 1 && !more_all && ids[0] == f.id.to_u128(), "C20 importing the same frame again does not duplicate it");
+    let back = sut.store.get(&f.id);
+    hx_check!(matches!(&back, Some(x) if topic_eq(&x.topic, &f.topic) && x.context_id == f.context_id), "C20 importing the same frame again changes nothing");
+    hx_cover!(true, "reached");
+    core::mem::forget(back);
+    core::mem::forget(sut);
+    core::mem::forget(f);
 }
 
 crate::scenarios! {
@@ -769,6 +1023,23 @@ crate::scenarios! {
     o_gc_head_1_1_3 => o_gc_head::<1, 1, 3>();
     o_gc_head_2_2_3 => o_gc_head::<2, 2, 3>();
     o_gc_remove_1_2 => o_gc_remove::<1, 2>();
+    o_gc_task_1_1_2 => o_gc_task::<1, 1, 2>();
+    o_gc_task_1_2_2 => o_gc_task::<1, 2, 2>();
+    o_gc_task_2_1_2 => o_gc_task::<2, 1, 2>();
+    o_gc_e2e_1 => o_gc_e2e::<1>();
+    o_gc_e2e_2 => o_gc_e2e::<2>();
+    o_gc_e2e_3 => o_gc_e2e::<3>();
+    o_read_sync_k_1 => o_read_sync_k::<1>();
+    o_read_sync_k_0 => o_read_sync_k::<0>();
+    o_remove_k_1_1 => o_remove_k::<1, 1>();
+    o_remove_k_1_2 => o_remove_k::<1, 2>();
+    o_remove_head_1 => o_remove_head::<1>();
+    o_reimport_k_1 => o_reimport_k::<1>();
+    o_iter_ctx_1_1 => o_iter::<1, 1, 1>();
+    o_iter_ctx_0_1 => o_iter::<0, 1, 1>();
+    o_import_reg_0 => o_import_reg::<0>();
+    o_import_reg_1 => o_import_reg::<1>();
+    o_import_reg_2 => o_import_reg::<2>();
     o_registry_after_import_10 => o_registry_after_import::<10>();
     o_registry_after_import_11 => o_registry_after_import::<11>();
     o_registry_after_import_1 => o_registry_after_import::<1>();
